@@ -140,6 +140,26 @@ def case(rep, drv, rnd, i, tier):
         if yp.atom(a[1]) is not yp.atom(a[1]) or yp.atom(a[1]) is y2.atom(a[1]):
             rep.violation(dict(payload, kind='atom interning'))
             return
+    # a Python value built piecewise: list pairs whose tail is a variable that a running
+    # unification binds; to_python applied to the term itself (not through a variable)
+    items = [literal(rnd, 0) for _ in range(rnd.randint(2, 4))]
+    items = [x for x in items if x[0] in ('A', 'N')] or [('A', 'a'), ('A', 'b')]
+    k = rnd.randint(1, len(items))
+    tail = yp.variable()
+    t = tail
+    for x in reversed(items[:k]):
+        t = yp.listpair(api_term(yp, x), t)
+    rest = yp.makelist([api_term(yp, x) for x in items[k:]])
+    chain = yp.variable()
+    got = None
+    for _ in E.unify(tail, chain):
+        for _ in E.unify(chain, rest):
+            got = E.to_python(t)
+    rep.count('piecewise-list')
+    if got != [expected_python(x) for x in items]:
+        rep.violation(dict(payload, kind='to_python of a list whose tail is a variable bound meanwhile',
+                           got=repr(got)[:300], expected=repr([expected_python(x) for x in items])[:300]))
+        return
     # tie: the model (front end + engine) gives the same answers
     try:
         m = drv.ask([Sym('front'), text])
